@@ -190,4 +190,46 @@ theorem aabb2_normalCast_outside (big : K) (b : RcAabb2 K) (ray : Ray2 K) (max :
       cases hm : (@V2.neg K (fieldNum K sq) (@V2.normalize K (fieldNum K sq) ray.d)) with
       | mk a' c' => rw [hm] at ex ey; simp only at ex ey; rw [ex, ey]
 
+/-- **`Aabb::cast_local_ray_and_get_normal` (2-D), `solid = false`, origin in the rectangle**: a reported time is `≤ max_toi`,
+the point is in the rectangle, and (unless `toi = 0`) it is the exit parameter — `[0, toi]` inside, nothing of
+`(toi, Real::MAX]` inside; `None` ⇒ the whole segment stays inside -/
+theorem aabb2_normalCast_nonsolid_inside (big : K) (b : RcAabb2 K) (ray : Ray2 K) (max : K)
+    (hv : b.mins.x < b.maxs.x ∧ b.mins.y < b.maxs.y) (hmax0 : 0 ≤ max) (hmaxb : max ≤ big) :
+    letI := fieldNum K sq
+    Aabb2Mem b ray.o →
+    match (b.castLocalRayAndGetNormal big ray max false).map (·.toi) with
+    | some t => t ≤ max ∧ Aabb2Mem b (rayPt2 sq ray t) ∧
+        (t = 0 ∨ ((∀ s, 0 ≤ s → s ≤ t → Aabb2Mem b (rayPt2 sq ray s)) ∧
+                  ∀ s, t < s → s ≤ big → ¬ Aabb2Mem b (rayPt2 sq ray s)))
+    | none => ∀ s, 0 ≤ s → s ≤ max → Aabb2Mem b (rayPt2 sq ray s) := by
+  intro hin
+  have hin3 : AabbMem (embAabbT b) (embRay ray).o := by
+    have := (aabbMem_embT sq b ray 0).2 (by
+      simpa only [rayPt2, Ray2.pointAt, V2.add, V2.smul, mul_zero, add_zero] using hin)
+    rw [rayPt_zero] at this; exact this
+  have h := aabb_normalCast_nonsolid_inside sq big (embAabbT b) (embRay ray) max
+    ⟨hv.1, hv.2, by simp only [embAabbT]; norm_num⟩ hmax0 hmaxb hin3
+  rw [aabb2_normalCast_eq_embed] at h
+  revert h
+  cases (@RcAabb2.castLocalRayAndGetNormal K (fieldNum K sq) big b ray max false) with
+  | none =>
+    simp only [Option.map_none]
+    exact fun h s a c => (aabbMem_embT sq b ray s).1 (h s a c)
+  | some r =>
+    simp only [Option.map_some, embHit2]
+    rintro ⟨h1, h2, h3⟩
+    refine ⟨h1, (aabbMem_embT sq b ray _).1 h2, ?_⟩
+    rcases h3 with h3 | ⟨h3, h4⟩
+    · exact Or.inl h3
+    · exact Or.inr ⟨fun s a c => (aabbMem_embT sq b ray s).1 (h3 s a c),
+        fun s a c hm => h4 s a c ((aabbMem_embT sq b ray s).2 hm)⟩
+
+/-- non-vacuity: a non-degenerate rectangle and `0 ≤ max ≤ big` (over `ℚ`); the 2-D cast from `(3, 0)` along `(-2, 0)`
+hits the unit square at `toi = 1` with normal `(1, 0)` -/
+example : letI := fieldNum ℚ id
+    ((RcAabb2.mk (⟨-1, -1⟩ : V2 ℚ) ⟨1, 1⟩).castLocalRayAndGetNormal 1000 ⟨⟨3, 0⟩, ⟨-2, 0⟩⟩ 10 true).map
+      (fun h => (h.toi, h.n.x, h.n.y)) = some (1, 1, 0) := by
+  simp only [RcAabb2.castLocalRayAndGetNormal, clipAabbLine2, clipStep, neq, axisVec2]
+  norm_num
+
 end C04
